@@ -17,10 +17,10 @@ Init == stream = <<>> /\ inTxn = FALSE
 Emit(k) ==
   /\ Len(stream) < MaxLen
   \* (a transaction that touches two databases carries the database switch inside the group)
-  /\ IF inTxn THEN k \in {"cmd", "exec", "sel0", "sel1"} ELSE k # "exec"
+  /\ IF inTxn THEN k \in {"cmd", "exec", "sel0", "sel1", "flt"} ELSE k # "exec"
   \* a transaction must still be closable within the bound
   /\ (k = "multi") => Len(stream) + 3 <= MaxLen
-  /\ (inTxn /\ k \in {"cmd", "sel0", "sel1"}) => Len(stream) + 2 <= MaxLen
+  /\ (inTxn /\ k \in {"cmd", "sel0", "sel1", "flt"}) => Len(stream) + 2 <= MaxLen
   /\ (inTxn /\ k = "exec") => stream[Len(stream)] # "multi"
   /\ stream' = Append(stream, k)
   /\ inTxn' = IF k = "multi" THEN TRUE ELSE IF k = "exec" THEN FALSE ELSE inTxn
@@ -37,7 +37,7 @@ Balanced == Depth(stream, Len(stream)) = (IF inTxn THEN 1 ELSE 0)
 WellFormed(s) ==
   /\ \A i \in 1..Len(s) : Depth(s, i) \in {0, 1}
   /\ Depth(s, Len(s)) = 0
-  /\ \A i \in 1..Len(s) : (Depth(s, i - 1) = 1) => s[i] \in {"cmd", "exec", "sel0", "sel1"}
+  /\ \A i \in 1..Len(s) : (Depth(s, i - 1) = 1) => s[i] \in {"cmd", "exec", "sel0", "sel1", "flt"}
   /\ \A i \in 1..Len(s) : (Depth(s, i - 1) = 0) => s[i] # "exec"
   /\ \A i \in 2..Len(s) : (s[i] = "exec") => s[i - 1] # "multi"
 All == {s \in UNION {[1..n -> Kinds] : n \in 1..MaxLen} : WellFormed(s)}
